@@ -30,7 +30,7 @@ RULE = ('Hypothesis draws 1-3 module classes (parameters of all datatypes, reado
 ASSUMPTIONS = ['modules of generated nodes have no check hooks or dynamic limits (those are C04)',
                'payloads with a partial struct element without previous value are excluded (known finding of C04)']
 
-N_EXAMPLES = {'quick': 60, 'thorough': 1200}
+N_EXAMPLES = {'quick': 250, 'thorough': 4000}
 PROBES_PER_PARAM = {'quick': 45, 'thorough': 200}
 
 
@@ -82,6 +82,7 @@ def check_node(ctx, case, nprobes=45):
     if any(p.get('constant') or p.get('export', True) is not True for cs in case['classes'] for p in cs['params']):
         ctx.nt(key)
     ctx.ev()
+    ctx.sample({'node': case['classes']}, every=97)
     try:
         kit = Kit(cfg)
     except Exception as e:   # noqa
